@@ -104,6 +104,10 @@ func verifWeights(V int) (*pos.Validators, []pos.Weight) {
 	return pos.ArrayToValidators(ids, ws), ws
 }
 
+// dropEach: after every Add + Flush the index also drops its (empty) buffer, as abft does after every processed event:
+// the in-memory branches info is then discarded and must come back from the database
+var verifDropEach = false
+
 func verifIndex(vals *pos.Validators, evs []*vEv, order []int) *Index {
 	crit := func(err error) { panic(err) }
 	byID := map[hash.Event]dag.Event{}
@@ -117,6 +121,9 @@ func verifIndex(vals *pos.Validators, evs []*vEv, order []int) *Index {
 			panic(err)
 		}
 		vi.Flush()
+		if verifDropEach {
+			vi.DropNotFlushed()
+		}
 	}
 	return vi
 }
@@ -221,6 +228,13 @@ func verifC05(N, V, maxOther int, secondOrder bool) {
 
 func VerifH_C05_n3v2() { verifC05(3, 2, 2, true) }
 func VerifH_C05_n4v2() { verifC05(4, 2, 2, true) }
+
+// the same with a DropNotFlushed after every flushed event (abft's usage)
+func VerifH_C05_n4v2drop() {
+	verifDropEach = true
+	verifC05(4, 2, 2, false)
+	sym.Reach("drop-each")
+}
 func VerifH_C05_n4v3() { verifC05(4, 3, 2, false) }
 func VerifH_C05_n5v2() { verifC05(5, 2, 2, false) }
 
